@@ -157,7 +157,7 @@ func driveBaseMul(c *ctx) {
 			}
 			entry := new(big.Int).Lsh(w, uint(8*pos))
 			hi := new(big.Int).Lsh(new(big.Int).Rsh(u1, uint(8*pos+8)), uint(8*pos+8)) // the windows above pos
-			lo := new(big.Int).Mod(u1, new(big.Int).Lsh(big.NewInt(1), uint(8*pos)))    // the windows below pos
+			lo := new(big.Int).Mod(u1, new(big.Int).Lsh(big.NewInt(1), uint(8*pos)))   // the windows below pos
 			for _, partial := range []*big.Int{hi, lo} {
 				for _, sign := range []int64{1, -1} {
 					// u2*P + partial = sign * entry
